@@ -61,6 +61,7 @@ func (rr *RdbReplay) Replay(e *rdb.BinEntry) (err error) {
 		restoreCmd = false
 	}
 
+EXPAND:
 	if !restoreCmd {
 		if ot == rdb.RdbObjectModule {
 			return fmt.Errorf("rdb module object requires RESTORE replay for key %s", e.Key)
@@ -143,10 +144,11 @@ RESTORE:
 				return fmt.Errorf("output key exist, none : %s", e.Key)
 			}
 		} else if strings.Contains(err.Error(), "Bad data format") { // cluster.c:restoreCommand
+			// the target cannot load the payload: replay the value with native
+			// commands, under the same key-exists policy and with its expiry
 			log.Warn(err, " try to restoreBigRdbEntry")
-			if err := restoreBigRdbEntry(rr.Client, e); err != nil {
-				return err
-			}
+			restoreCmd = false
+			goto EXPAND
 		} else {
 			return fmt.Errorf("restore command error : key(%s), error(%w)", e.Key, err)
 		}
